@@ -34,6 +34,7 @@ PROBES = [
     "probe.trunc_in_record_header", "probe.trunc_in_record_data", "probe.trunc_on_boundary", "probe.corrupt_caplen",
     "probe.bad_magic", "probe.read_past_end", "probe.read_all_n_gt_remaining", "probe.read_all_n_zero", "probe.zero_records",
     "probe.nanosecond_magic", "probe.written_reread", "probe.written_stdout", "probe.record_gt_65535", "probe.empty_payload",
+    "probe.drain_loop", "probe.long_file",
 ]
 
 
@@ -45,6 +46,12 @@ def _gen_episode(rng, allow_stdin, deep=False):
     nrec = rng.weighted([(6, 0), (10, 1), (30, rng.range(2, 6)), (30, rng.range(6, 20)), (10, rng.range(20, 50))])
     allow_huge = hdr["snaplen"] >= 70000
     recs = [pcapfmt.gen_record(rng, hdr["snaplen"], allow_huge=allow_huge and rng.chance(30)) for _ in range(nrec)]
+    long_file = rng.chance(6 if deep else 3)
+    if long_file:
+        # a long file of tiny records: state kept per handle across thousands of records
+        nrec = rng.choice([400, 1500, 4000])
+        recs = [{"sec": i, "usec": (i * 104729) % 1000000000, "wirelen": (i * 17) % 2000,
+                 "data": {"t": "pattern", "n": min(hdr["snaplen"], (i * 5) % 23), "mul": 1, "add": i % 256}} for i in range(nrec)]
     source = rng.weighted([(35, "reg"), (40, "pipe"), (25 if allow_stdin else 0, "stdin")])
     damage = None
     total = 24 + sum(16 + r["data"]["n"] for r in recs)
@@ -99,6 +106,10 @@ def _gen_episode(rng, allow_stdin, deep=False):
                               (19, max(1, remaining // left))])
             calls.append(["alln", n])
             remaining = max(0, remaining - n)
+    if long_file:
+        calls = rng.choice([[["drain"], ["next"]], [["alln", 7], ["drain"], ["all"]], [["next"], ["next"], ["drain"], ["next"]], [["all"], ["next"]]])
+    elif rng.chance(15):
+        calls.insert(rng.below(len(calls) + 1), ["drain"])
     return {"hdr": hdr, "recs": recs, "source": source, "damage": damage, "calls": calls}
 
 
@@ -240,7 +251,10 @@ def render(model):
         wr = ""
         if w and w["ep"] == e:
             wr = ' if !is_error(w) { eprintln("#%d W {}", pcap_write(w, %%s)); }' % k
-        if call[0] == "next":
+        if call[0] == "drain":
+            body = ('let go = true; while go { let r = pcap_read_next(f%d); if is_error(r) { eprintln("#%d E {}", r); go = false; } else { if r == null { eprintln("#%d N"); go = false; } else { %s%s } } }'
+                    % (e, k, k, _pkt_line(k, "r"), (wr % "r") if wr else ""))
+        elif call[0] == "next":
             body = ('let r = pcap_read_next(f%d); if is_error(r) { eprintln("#%d E {}", r); } else { if r == null { eprintln("#%d N"); } else { %s%s } }'
                     % (e, k, k, _pkt_line(k, "r"), (wr % "r") if wr else ""))
         else:
@@ -330,6 +344,8 @@ def check(model, results):
                 inc("probe.bad_magic")
         if not ep["recs"]:
             inc("probe.zero_records")
+        if len(ep["recs"]) >= 400:
+            inc("probe.long_file")
         if ep["hdr"]["magic"] == pcapfmt.MAGIC_NS:
             inc("probe.nanosecond_magic")
         o = obs.get(2000 + i)
@@ -352,21 +368,27 @@ def check(model, results):
                 viols.append(_viol("open:noerror:%s" % (ep["damage"] or {}).get("kind"), "source %d: damaged global header (%r) but open returned %s %r" % (i, ep["damage"], tag, rest[:80])))
                 st["bad"] = True
 
-    # chunk probes from the trace
+    # chunk probes from the trace (offsets once per source, bisect per event)
+    import bisect
+    offs_by_src = [pcapfmt.record_offsets(ep["recs"]) for ep in eps]
+    stdin_src = [j for j, ep in enumerate(eps) if ep["source"] == "stdin"]
     for e in res.events:
         if e.call == "R" and e.action == 100:
             nontrivial = True
             inc("fired.chunk")
-            epi = 0 if e.target == -2 else e.target
-            src = [j for j, ep in enumerate(eps) if (ep["source"] == "stdin" and e.target == -2) or (ep["source"] != "stdin" and j == e.target)]
-            if src:
+            if e.target == -2:
+                src = stdin_src[0] if stdin_src else None
+            else:
+                src = e.target if 0 <= e.target < len(eps) and eps[e.target]["source"] != "stdin" else None
+            if src is not None:
                 b = e.off + e.res
-                offs = pcapfmt.record_offsets(eps[src[0]]["recs"])
+                offs = offs_by_src[src]
                 if b < 24:
                     inc("probe.chunk_in_global_header")
-                elif b < offs[-1] and b not in offs:
-                    j = max(k for k in range(len(offs)) if offs[k] <= b)
-                    inc("probe.chunk_in_record_header" if b - offs[j] < 16 else "probe.chunk_in_record_data")
+                elif b < offs[-1]:
+                    j = bisect.bisect_right(offs, b) - 1
+                    if offs[j] != b:
+                        inc("probe.chunk_in_record_header" if b - offs[j] < 16 else "probe.chunk_in_record_data")
 
     written = []     # tuples handed to pcap_write, in order
     pos = [0] * len(eps)
@@ -436,6 +458,27 @@ def check(model, results):
             if len(wr) != len(pk):
                 viols.append(_viol("write:missing", "call %d: %d packets read but %d pcap_write results" % (k, len(pk), len(wr))))
         srck = ep["source"]
+        if call[0] == "drain":
+            inc("probe.drain_loop")
+            last_tag = o[-1][0]
+            if pk != rem:
+                cls = "short" if rem[:len(pk)] == pk else ("extra" if pk[:len(rem)] == rem else "wrong")
+                viols.append(_viol("drain:%s:%s" % (cls, srck), "call %d: a pcap_read_next loop on source %d (%s; %d records visible, cursor %d) yielded %d records, expected %d%s" % (
+                    k, e, srck, len(st["vis"]), st["i"], len(pk), len(rem),
+                    "" if cls != "wrong" else "; first difference: expected %s got %s" % next(((_pk_short(a), _pk_short(b)) for a, b in zip(rem, pk) if a != b), ("?", "?")))))
+                st["bad"] = True
+                continue
+            st["i"] += len(rem)
+            if st["endk"] == "eof" and last_tag != "N":
+                viols.append(_viol("drain:not_null_at_eof:%s" % srck, "call %d: the loop ended with %s instead of null at the end of a well-formed file" % (k, last_tag)))
+                st["bad"] = True
+            elif st["endk"] == "corrupt":
+                if last_tag != "E":
+                    viols.append(_viol("drain:corrupt_not_error:%s" % srck, "call %d: the loop met a record whose caplen exceeds snaplen and ended with %s" % (k, last_tag)))
+                st["poison"] = True
+            elif last_tag not in ("N", "E"):
+                viols.append(_viol("drain:bad_end:%s" % srck, "call %d: loop ended with %s" % (k, last_tag)))
+            continue
         if call[0] == "next":
             if not at_end:
                 want = rem[0]
